@@ -59,6 +59,12 @@ STD_FUNCS = [
     "nessai.samplers.nestedsampler:NestedSampler.finalise",
     "nessai.samplers.nestedsampler:NestedSampler.populate_live_points",
     "nessai.samplers.base:BaseNestedSampler.checkpoint",
+    # the writers themselves: a signal while a periodic checkpoint / a weights
+    # file is being written makes the handler checkpoint re-entrantly
+    "nessai.utils.io:safe_file_dump",
+    "nessai.flowmodel.base:FlowModel.save_weights",
+    # inside a training (weights half-updated in memory, file not yet saved)
+    "nessai.flowmodel.base:FlowModel.train",
     "nessai.evidence:_NSIntegralState.increment",
     "nessai.proposal.flowproposal:FlowProposal.draw",
     "nessai.proposal.flowproposal:FlowProposal.populate",
@@ -83,6 +89,13 @@ INS_FUNCS = [
     "update_history",
     "nessai.samplers.importancesampler:ImportanceNestedSampler.finalise",
     "nessai.samplers.importancesampler:ImportanceNestedSampler.checkpoint",
+    "nessai.samplers.base:BaseNestedSampler.checkpoint",
+    "nessai.utils.io:safe_file_dump",
+    "nessai.flowmodel.base:FlowModel.train",
+    "nessai.flowmodel.importance:ImportanceFlowModel.add_new_flow",
+    "nessai.flowmodel.importance:ImportanceFlowModel.save_weights",
+    "nessai.samplers.importancesampler:ImportanceNestedSampler."
+    "update_evidence",
     "nessai.samplers.importancesampler:OrderedSamples.add_samples",
     "nessai.samplers.importancesampler:OrderedSamples.remove_samples",
     "nessai.samplers.importancesampler:OrderedSamples.add_to_nested_samples",
@@ -92,10 +105,13 @@ INS_FUNCS = [
     "nessai.proposal.importance:ImportanceFlowProposal.update_log_q",
 ]
 
+WRITERS = ("checkpoint", "safe_file_dump", "save_weights")
+
 INTERESTING = ("consume_sample", "yield_sample", "insert_live_point",
                "populate", "train", "draw", "backward_pass", "increment",
                "add_samples", "remove_samples", "add_and_update_points",
-               "add_to_nested_samples", "update_log_q", "convert_to_samples")
+               "add_to_nested_samples", "update_log_q", "convert_to_samples",
+               "checkpoint", "safe_file_dump", "save_weights")
 
 
 def base_configs(seed):
@@ -171,7 +187,13 @@ def make_history(cfgs, sched):
     fault = {"signal": {"func": sched["func"], "rel_line": sched["rel_line"],
                         "occurrence": sched["occurrence"],
                         "signum": sched["signum"]}}
-    return {"steps": [job_of(cfg, fault=fault), job_of(cfg)]}
+    extra = {}
+    if sched["func"].split(".")[-1] in WRITERS:
+        # the signal interrupts a checkpoint that is being written: as for a
+        # crash during the write (C11), the state found by the next process
+        # may be the previous or the new checkpoint
+        extra["ckpt_allow_previous"] = True
+    return {"steps": [job_of(cfg, fault=fault), job_of(cfg, **extra)]}
 
 
 def judge(ctx, cfgs, sched, reports, out):
@@ -304,7 +326,7 @@ def run(ctx):
     schedules = enumerate_schedules(ctx, cfgs)
     sigs = [15, 2, 14]
     if ctx.quick:
-        chosen = select(ctx, schedules, 48)
+        chosen = select(ctx, schedules, 60)
     else:
         chosen = schedules
     for i, s in enumerate(chosen):
